@@ -9,6 +9,8 @@ use std::rc::Rc;
 
 use incremental::expert::{Dependency, Node as ExpertNode};
 use incremental::{Cutoff, Incr, IncrState, Observer, SubscriptionToken, Update, Var};
+use incremental_map::prelude::*;
+use im_rc::OrdMap;
 
 // ------------------------------------------------------------------------------------------------
 // values
@@ -146,6 +148,15 @@ enum Instr {
     DependOn(Opnd, Opnd),
     Cutoff(Opnd, CutK),
     Expert(usize, i64),
+    MapOp(MapOp),
+}
+
+#[derive(Clone, Debug)]
+enum MapOp {
+    Fm(String, usize, Opnd),
+    Fold(String, usize, bool, bool, Opnd),
+    Merge(String, usize, Opnd, Opnd),
+    Part(usize, Opnd),
 }
 
 #[derive(Clone, Debug)]
@@ -177,6 +188,7 @@ struct Defs {
     cuts: HashMap<usize, i64>,
     bodies: HashMap<usize, (usize, Vec<Template>)>,
     hdls: HashMap<usize, Vec<Effect>>,
+    mfns: HashMap<usize, [i64; 5]>,
 }
 
 fn idx(pfx: &str, s: &str) -> Option<usize> {
@@ -228,6 +240,12 @@ fn parse_instr(t: &[&str]) -> Option<Instr> {
         ["zip", a, b] => Some(Instr::Zip(parse_opnd(a)?, parse_opnd(b)?)),
         ["dependon", a, b] => Some(Instr::DependOn(parse_opnd(a)?, parse_opnd(b)?)),
         ["cutoff", n, c @ ..] => Some(Instr::Cutoff(parse_opnd(n)?, parse_cutoff(c)?)),
+        ["mapop", "fm", ty, m, x] => Some(Instr::MapOp(MapOp::Fm(ty.to_string(), idx("M", m)?, parse_opnd(x)?))),
+        ["mapop", "fold", ty, m, rev, upd, x] => Some(Instr::MapOp(MapOp::Fold(
+            ty.to_string(), idx("M", m)?, *rev == "1", *upd == "1", parse_opnd(x)?))),
+        ["mapop", "merge", ty, m, x, y] => Some(Instr::MapOp(MapOp::Merge(
+            ty.to_string(), idx("M", m)?, parse_opnd(x)?, parse_opnd(y)?))),
+        ["mapop", "part", m, x] => Some(Instr::MapOp(MapOp::Part(idx("M", m)?, parse_opnd(x)?))),
         ["expert", "sumdeps", m] => Some(Instr::Expert(0, m.parse().ok()?)),
         ["expert", "cbsum", m] => Some(Instr::Expert(1, m.parse().ok()?)),
         _ => None,
@@ -796,6 +814,7 @@ fn elab_instr(ctx: &C, loc: &[usize], lhs: &V, i: &Instr) -> Option<usize> {
             );
             Some(ix)
         }
+        Instr::MapOp(op) => Some(elab_mapop(ctx, loc, op)),
         Instr::Cutoff(n, c) => {
             let node = resolve(ctx, loc, n);
             let nix = node.verif_index();
@@ -822,6 +841,181 @@ fn elab_instr(ctx: &C, loc: &[usize], lhs: &V, i: &Instr) -> Option<usize> {
             None
         }
     }
+}
+
+// ------------------------------------------------------------------------------------------------
+// incremental-map operators on V-typed graphs: V -> concrete map type -> operator -> V
+
+fn as_btree(v: &V) -> BTreeMap<i64, i64> {
+    match v {
+        V::Map(m) => (**m).clone(),
+        _ => BTreeMap::new(),
+    }
+}
+
+fn opt(x: Option<i64>) -> String {
+    x.map_or("-".to_string(), |v| v.to_string())
+}
+
+/// the user function families (same as `mapFn*` in IncrVerif/Engine/History.lean)
+fn fm_fn(p: [i64; 5], k: i64, v: i64) -> Option<i64> {
+    if emod(k + v, p[2]) == p[3] { None } else { Some(emod(p[0] * v + p[1] * k, 7)) }
+}
+fn g_fn(p: [i64; 5], k: i64, v: i64) -> i64 {
+    p[0] * v + p[1] * k
+}
+fn merge_fn(p: [i64; 5], e: MergeElement<&i64, &i64>) -> Option<i64> {
+    match e {
+        MergeElement::Left(x) => Some(*x),
+        MergeElement::Right(y) => Some(emod(2 * y, 7)),
+        MergeElement::Both(x, y) => {
+            if emod(x + y, p[2]) == p[3] { None } else { Some(emod(x + y, 7)) }
+        }
+    }
+}
+
+macro_rules! fm_on {
+    ($input:expr, $conv:expr, $back:expr, $p:expr, $mi:expr, $me:expr) => {{
+        let a = $input.map($conv);
+        let (p, mi, me) = ($p, $mi, $me.clone());
+        let o = a.incr_filter_mapi(move |k: &i64, v: &i64| {
+            tick();
+            let r = fm_fn(p, *k, *v);
+            log(format!("inv M{}.fn@n{} ({},{})->{}", mi, me.get(), k, v, opt(r)));
+            r
+        });
+        $me.set(o.verif_index());
+        o.map($back)
+    }};
+}
+
+macro_rules! fold_on {
+    ($input:expr, $conv:expr, $p:expr, $mi:expr, $me:expr, $rev:expr, $upd:expr) => {{
+        let a = $input.map($conv);
+        let (p, mi) = ($p, $mi);
+        let (me1, me2, me3) = ($me.clone(), $me.clone(), $me.clone());
+        let add = move |acc: i64, k: &i64, v: &i64| {
+            tick();
+            let r = acc + g_fn(p, *k, *v);
+            log(format!("inv M{}.add@n{} ({},{})->{}", mi, me1.get(), k, v, r));
+            r
+        };
+        let remove = move |acc: i64, k: &i64, v: &i64| {
+            tick();
+            let r = acc - g_fn(p, *k, *v);
+            log(format!("inv M{}.remove@n{} ({},{})->{}", mi, me2.get(), k, v, r));
+            r
+        };
+        let o = if $upd {
+            a.incr_unordered_fold_update(
+                p[4],
+                add,
+                remove,
+                move |acc: i64, k: &i64, old: &i64, new: &i64| {
+                    tick();
+                    let r = acc - g_fn(p, *k, *old) + g_fn(p, *k, *new);
+                    log(format!("inv M{}.update@n{} ({},{},{})->{}", mi, me3.get(), k, old, new, r));
+                    r
+                },
+                $rev,
+            )
+        } else {
+            a.incr_unordered_fold(p[4], add, remove, $rev)
+        };
+        $me.set(o.verif_index());
+        o.map(|r: &i64| V::Int(*r))
+    }};
+}
+
+fn elab_mapop(ctx: &C, loc: &[usize], op: &MapOp) -> usize {
+    let me = Rc::new(Cell::new(usize::MAX));
+    let params = |m: &usize| ctx.defs.borrow().mfns.get(m).copied().unwrap_or([1, 0, 2, 9, 0]);
+    let back_bt = |m: &BTreeMap<i64, i64>| V::Map(Rc::new(m.clone()));
+    let back_rc = |m: &Rc<BTreeMap<i64, i64>>| V::Map(m.clone());
+    let back_ord = |m: &OrdMap<i64, i64>| V::Map(Rc::new(m.iter().map(|(k, v)| (*k, *v)).collect()));
+    let out: Incr<V> = match op {
+        MapOp::Fm(ty, m, x) => {
+            let input = resolve(ctx, loc, x);
+            let p = params(m);
+            match ty.as_str() {
+                "bt" => fm_on!(input, |v: &V| as_btree(v), back_bt, p, *m, me),
+                "rc" => fm_on!(input, |v: &V| Rc::new(as_btree(v)), back_rc, p, *m, me),
+                _ => fm_on!(input, |v: &V| as_btree(v).into_iter().collect::<OrdMap<i64, i64>>(), back_ord, p, *m, me),
+            }
+        }
+        MapOp::Fold(ty, m, rev, upd, x) => {
+            let input = resolve(ctx, loc, x);
+            let p = params(m);
+            match ty.as_str() {
+                "bt" => fold_on!(input, |v: &V| as_btree(v), p, *m, me, *rev, *upd),
+                "rc" => fold_on!(input, |v: &V| Rc::new(as_btree(v)), p, *m, me, *rev, *upd),
+                _ => fold_on!(input, |v: &V| as_btree(v).into_iter().collect::<OrdMap<i64, i64>>(), p, *m, me, *rev, *upd),
+            }
+        }
+        MapOp::Merge(ty, m, x, y) => {
+            let (ix, iy) = (resolve(ctx, loc, x), resolve(ctx, loc, y));
+            let p = params(m);
+            let (mi, me2) = (*m, me.clone());
+            let logm = move |k: &i64, e: &MergeElement<&i64, &i64>, r: Option<i64>| {
+                let (a, b) = match e {
+                    MergeElement::Left(x) => (Some(**x), None),
+                    MergeElement::Right(y) => (None, Some(**y)),
+                    MergeElement::Both(x, y) => (Some(**x), Some(**y)),
+                };
+                log(format!("inv M{}.merge@n{} ({},{},{})->{}", mi, me2.get(), k, opt(a), opt(b), opt(r)));
+            };
+            match ty.as_str() {
+                "bt" => {
+                    let a = ix.map(|v: &V| as_btree(v));
+                    let b = iy.map(|v: &V| as_btree(v));
+                    let o = a.incr_merge(&b, move |k: &i64, e: MergeElement<&i64, &i64>| {
+                        tick();
+                        let r = merge_fn(p, e);
+                        logm(k, &e, r);
+                        r
+                    });
+                    me.set(o.verif_index());
+                    o.map(back_bt)
+                }
+                _ => {
+                    let a = ix.map(|v: &V| as_btree(v).into_iter().collect::<OrdMap<i64, i64>>());
+                    let b = iy.map(|v: &V| as_btree(v).into_iter().collect::<OrdMap<i64, i64>>());
+                    let o = a.incr_merge(&b, move |k: &i64, e: MergeElement<&i64, &i64>| {
+                        tick();
+                        let r = merge_fn(p, e);
+                        logm(k, &e, r);
+                        r
+                    });
+                    me.set(o.verif_index());
+                    o.map(back_ord)
+                }
+            }
+        }
+        MapOp::Part(m, x) => {
+            let input = resolve(ctx, loc, x);
+            let p = params(m);
+            let (mi, me2) = (*m, me.clone());
+            let a = input.map(|v: &V| as_btree(v).into_iter().collect::<OrdMap<i64, i64>>());
+            let o = a.incr_partition_mapi(move |k: &i64, v: &i64| {
+                tick();
+                let r = if emod(k + v, p[2]) == p[3] { Either::Left(*v) } else { Either::Right(emod(v + 1, 7)) };
+                let s = match &r {
+                    Either::Left(a) => format!("L{}", a),
+                    Either::Right(b) => format!("R{}", b),
+                };
+                log(format!("inv M{}.fn@n{} ({},{})->{}", mi, me2.get(), k, v, s));
+                r
+            });
+            me.set(o.verif_index());
+            o.map(move |(l, r): &(OrdMap<i64, i64>, OrdMap<i64, i64>)| {
+                V::Pair(Rc::new((
+                    V::Map(Rc::new(l.iter().map(|(k, v)| (*k, *v)).collect())),
+                    V::Map(Rc::new(r.iter().map(|(k, v)| (*k, *v)).collect())),
+                )))
+            })
+        }
+    };
+    register(ctx, &out)
 }
 
 fn elab_template(ctx: &C, t: &Template, lhs: &V) -> Incr<V> {
@@ -1113,6 +1307,12 @@ pub fn run() {
                     let alts: Vec<Template> =
                         rest.join(" ").split('|').map(|a| parse_alt(a).expect("alt")).collect();
                     d.bodies.insert(idx("b", b).unwrap(), (k.parse().unwrap(), alts));
+                }
+                ["mfn", m, a, b, mm, r, c] => {
+                    d.mfns.insert(
+                        idx("M", m).unwrap(),
+                        [a.parse().unwrap(), b.parse().unwrap(), mm.parse().unwrap(), r.parse().unwrap(), c.parse().unwrap()],
+                    );
                 }
                 ["hdl", h, rest @ ..] => {
                     d.hdls.insert(idx("h", h).unwrap(), parse_effects(&rest.join(" ")).expect("effects"));
